@@ -6,7 +6,6 @@ import (
 	"strings"
 
 	"verif/harness/gen"
-	. "verif/harness/jsonx"
 
 	"github.com/go-openapi/spec"
 )
@@ -66,17 +65,6 @@ func init() {
 		}
 		return strings.Contains(fail, "no key") || strings.Contains(fail, "JSON pointer error") || strings.Contains(fail, "dangling")
 	}
-	// The library recognises the definitions it generated to resolve a name conflict by the substring
-	// "OAIGen" in the key of a $ref holder. A definition or property of the INPUT whose name contains
-	// "OAIGen" is mistaken for one: an alias definition is merged away, or de-duplication is applied
-	// to user schemas and then trips on keys that do not exist.
-	Classifiers["oaigen-substring-in-input-name"] = func(prop string, c interface{}, fail string) bool {
-		fc, ok := c.(*gen.FlattenCase)
-		if !ok || !inputHasOAIGenName(fc) {
-			return false
-		}
-		return strings.Contains(fail, "OAIGen")
-	}
 	// analysis.Schema on {"$ref": "#/definitions/x/<keyword>"} where x has no such keyword: the pointer
 	// resolves to a typed nil (*SchemaOrBool, *SchemaOrArray, *Schema) inside go-openapi/spec, whose
 	// resolver then marshals it: panic inside the dependency.
@@ -98,30 +86,6 @@ func init() {
 		}
 		return false
 	}
-}
-
-func inputHasOAIGenName(c *gen.FlattenCase) bool {
-	found := false
-	var walk func(v J)
-	walk = func(v J) {
-		switch x := v.(type) {
-		case map[string]interface{}:
-			for k, e := range x {
-				if strings.Contains(k, "OAIGen") {
-					found = true
-				}
-				walk(e)
-			}
-		case []interface{}:
-			for _, e := range x {
-				walk(e)
-			}
-		}
-	}
-	for _, d := range c.Docs() {
-		walk(d)
-	}
-	return found
 }
 
 // specExpandFails runs go-openapi/spec's own full expansion on the bundle, in this process.
